@@ -371,6 +371,9 @@ func (r *Runner) entReqs(b *Base, op Op) []entReq {
 		switch by {
 		case "key":
 			er.pub = b.PubKeys[kn]
+		case "keypad":
+			// the account's public key followed by extra bytes: the fetcher resolves accounts on the first 48 bytes
+			er.pub = append(append([]byte{}, b.PubKeys[kn]...), 0x00, byte(i))
 		case "both":
 			er.pub = b.PubKeys[kn]
 			nk := e.K
